@@ -21,7 +21,7 @@ pub struct C11;
 const CLS: &[u8] = b"\x1B[2J\x1B[1;1H";
 
 /// stdout of an aggregate follow run -> the tables that appeared on screen
-fn refreshes(stdout: &[u8]) -> Vec<Vec<String>> {
+pub fn refreshes(stdout: &[u8]) -> Vec<Vec<String>> {
     let mut out = Vec::new();
     let mut rest = stdout;
     // text before the first clear-screen (none expected for aggregates)
